@@ -40,7 +40,7 @@ use templates::{N_SHAPES, TEMPLATES};
 // ---------------------------------------------------------------- expected tree (generator side)
 
 fn ren(tag: &str) -> String {
-    if SVG_ALL.contains(&tag) {
+    if is_foreign(tag) {
         format!("x-{tag}")
     } else {
         tag.to_string()
@@ -140,6 +140,8 @@ fn den(nodes: &[Tmpl], esc: bool, out: &mut Vec<Tree>) {
                 den(kids, true, &mut k);
                 out.push(Tree::Elem { tag: "section".into(), attrs: vec![], kids: k });
             }
+            // a comment is not part of the view; the doctype is not part of the tree
+            Tmpl::Comment(_) | Tmpl::Doctype => {}
         }
     }
 }
@@ -189,7 +191,7 @@ fn normalise(ts: &[Tree]) -> Vec<Tree> {
     out
 }
 
-/// SVG elements are outside the parser subset (foreign content); leptos never emits `/>` or CDATA, so
+/// SVG and MathML elements are outside the parser subset (foreign content); leptos never emits `/>` or CDATA, so
 /// they tokenise like unknown HTML elements: parse them as custom elements `x-<tag>`
 fn rename_svg(h: &str) -> String {
     let cs: Vec<char> = h.chars().collect();
@@ -207,7 +209,7 @@ fn rename_svg(h: &str) -> String {
             }
             let name: String = cs[start..j].iter().collect();
             o.extend(&cs[i..start]);
-            if SVG_ALL.contains(&name.as_str()) {
+            if is_foreign(&name) {
                 o.push_str("x-");
             }
             o.push_str(&name);
@@ -221,6 +223,8 @@ fn rename_svg(h: &str) -> String {
 }
 
 fn parse_norm(h: &str) -> Option<Vec<Tree>> {
+    // a leading doctype is outside the parser subset and not part of the tree
+    let h = h.strip_prefix("<!DOCTYPE html>").unwrap_or(h);
     html::parse(&rename_svg(h)).map(|t| normalise(&t))
 }
 
@@ -351,7 +355,7 @@ fn inert_node(t: &Tmpl) -> bool {
 fn is_inert(t: &Tmpl) -> bool {
     match t {
         Tmpl::Elem(tag, attrs, kids) => {
-            !(attrs.is_empty() && kids.is_empty()) && !SVG_ALL.contains(&tag.as_str()) && inert_node(t)
+            !(attrs.is_empty() && kids.is_empty()) && !is_foreign(tag) && inert_node(t)
         }
         _ => false,
     }
@@ -386,6 +390,8 @@ fn node_tags(nodes: &[Tmpl], top: bool, in_inert: bool, escape: bool, t: &mut BT
                 t.insert(if inert { "inert".into() } else { "builder".into() });
                 if SVG_ALL.contains(&tag.as_str()) {
                     t.insert("svg".into());
+                } else if MATH_ALL.contains(&tag.as_str()) {
+                    t.insert("math".into());
                 } else if tag.contains('-') {
                     t.insert("custom".into());
                 } else if MACRO_VOID.contains(&tag.as_str()) {
@@ -431,11 +437,20 @@ fn node_tags(nodes: &[Tmpl], top: bool, in_inert: bool, escape: bool, t: &mut BT
                         }
                     }
                 }
+                if kids.len() > 16 {
+                    t.insert("chunked".into());
+                }
                 node_tags(kids, false, inert, !is_raw_tag(tag), t);
             }
             Tmpl::Frag(kids) => {
-                t.insert("frag".into());
+                t.insert(if top { "frag".into() } else { format!("frag-nested{}", kids.len().min(2)) });
                 node_tags(kids, true, in_inert, escape, t);
+            }
+            Tmpl::Comment(_) => {
+                t.insert("comment".into());
+            }
+            Tmpl::Doctype => {
+                t.insert("doctype".into());
             }
             Tmpl::Comp(kids) => {
                 t.insert("comp".into());
@@ -495,7 +510,7 @@ const STYLEY: &[&str] = &[
     "color:red", "color:red;left:1px", " margin:0 ", "a:b;;", "x:\"<&>", "color:red;", "top:1px ; left:2px", "1px", "red",
     "\"<&>", "a;b", " 2em ", ";", "</style>",
 ];
-const RAW_SAFE: &[&str] = &["a", "var a=1;", "p{color:red}", "x y", "if (a > b) {}", "1 < 2", "\"q\"", "é", "a&b", "{}"];
+const RAW_SAFE: &[&str] = &["a", "var a=1;", "p{color:red}", "x y", "if (a > b) {}", "1 < 2", "\"q\"", "é", "a & b", "{}"];
 
 fn gen_value(r: &mut Rng, k: HoleKind) -> String {
     let mut s = String::new();
